@@ -46,7 +46,7 @@ def one(args):
     case = gen_trace.exit_case(rng) if idx % 6 == 5 else gen_trace.case(rng)
     stmts = case['stmts']
     # lines are assigned by the printer, so print first
-    text = lyast.to_source(stmts, random.Random(rng.random()), comments=0.2, blank=0.25)
+    text = lyast.to_source(stmts, random.Random(rng.random()), comments=0.2, blank=0.25, raw_newlines=0.8)
     lynative.annotate_lambda_names(stmts)
     m = diffrun.model_run(stmts)
     if m is None or 'refused' in m:
